@@ -54,6 +54,8 @@ class Include(DirectivePlugin):
         ext = os.path.splitext(relpath)[1]
         if ext in {".md", ".markdown", ".mkd"}:
             new_state = block.state_cls()
+            # the included blocks stand where the directive stands: they count against the same nesting limit
+            new_state.parent = state.parent
             new_state.env["__file__"] = dest
             new_state.env["__including__"] = including + [source_file]
             new_state.process(content)
